@@ -9,6 +9,8 @@ OL_BREAK: _ol_reserved_name = "__ol_break_{}"
 OL_INTERRUPT: _ol_reserved_name = "__ol_interrupt_{}"
 OL_WRAPPED_ITER: _ol_reserved_name = "__ol_it_{}"
 OL_ITER_WRAPPER: _ol_reserved_name = "__ol_iter_wrapper"  # don't need format here
+OL_ITERTOOLS: _ol_reserved_name = "__ol_itertools"  # don't need format here
+OL_IMPORTLIB: _ol_reserved_name = "__ol_importlib"  # don't need format here
 OL_FOR_TMP: _ol_reserved_name = "__ol_for_{}"
 OL_WHILE_TMP: _ol_reserved_name = "__ol_while_{}"
 OL_ASSIGN_TMP: _ol_reserved_name = "__ol_assign_{}"
